@@ -3,7 +3,7 @@
    `Wn N = 2^(64 N)`; the modulus is the limb list `m` (p = val m), quantified over: every
    length N and every odd value. *)
 From V Require Import Base.Word C15.BigIntModel C01.InvModel C01.InvProofs C01.MontModel
-  C01.MontProofs C01.SquareProofs C01.SopProofs C01.ConvProofs C01.Batch C01.BatchProofs.
+  C01.MontProofs C01.SquareProofs C01.BitsProofs C01.SopProofs C01.ConvProofs C01.Batch C01.BatchProofs.
 Require Import Field_theory.
 
 (* INV = -p^-1 mod 2^64, for every odd low limb (the 63-step square-and-multiply of `inv`) *)
@@ -186,16 +186,14 @@ Theorem C01_std_square : forall m, wf m -> val m mod 2 = 1 -> forall (derived : 
   std m (square_in_place derived m a) = (std m a * std m a) mod val m.
 Proof. exact std_square. Qed.
 
-(* pow (Field::pow): square-and-multiply over BitIteratorBE::without_leading_zeros(e) gives
-   a^(value of those bits) in standard form.  _partial: the identity
-   fold_left be_step (bits_be_nlz e) 0 = val e (C15's bit-iterator specification) is not
-   re-proved here.  Full statement: std m (pow d m a e) = (std m a ^ val e) mod p. *)
-Theorem C01_pow_partial : forall (derived : bool) m a e, wf m -> val m mod 2 = 1 -> 1 < val m ->
-  wf a -> length a = length m -> val a < val m ->
+(* pow (Field::pow): square-and-multiply over BitIteratorBE::without_leading_zeros(e): for
+   every limb-slice exponent (any length, leading zero limbs, empty), a^(val e) mod p *)
+Theorem C01_pow : forall (derived : bool) m a e, wf m -> val m mod 2 = 1 -> 1 < val m ->
+  wf a -> length a = length m -> val a < val m -> wf e ->
   let r := pow derived m a e in
   wf r /\ length r = length m /\ val r < val m /\
-  std m r = (std m a ^ (fold_left be_step (bits_be_nlz e) 0)) mod val m.
-Proof. exact pow_spec_partial'. Qed.
+  std m r = (std m a ^ val e) mod val m.
+Proof. exact pow_spec. Qed.
 
 (* sum_of_products: the naive fold (used by the fallback branch `bits >= 64N-1`, by the
    macro's chunk remainders, and asserted equal by the debug_assert of the interleaved
